@@ -30,7 +30,12 @@ def program(cs, variant="start"):
         deco = "" if c["loop"] == "p" else '@loop("%s")\n' % ("NEW" if c["loop"] == "N" else c["loop"])
         prio = "  priority 0.5\n" if c["half"] else ""
         match = "  match E(%s)\n" % ", ".join(args) if args is not None else "  match Other()\n"
-        out.append("%sflow c%d\n%s%s  start XAction(v=%d)\n  match W%d()\n" % (deco, i, prio, match, c["act"], i))
+        if c.get("wrap"):
+            # the event is matched by a helper flow; the competitor waits for the helper to finish
+            out.append("flow h%d\n%s" % (i, match))
+            out.append("%sflow c%d\n%s  await h%d\n  start XAction(v=%d)\n  match W%d()\n" % (deco, i, prio, i, c["act"], i))
+        else:
+            out.append("%sflow c%d\n%s%s  start XAction(v=%d)\n  match W%d()\n" % (deco, i, prio, match, c["act"], i))
     main = "flow main\n" + "".join("  %s c%d\n" % ("activate" if variant == "activate" else "start", i) for i in range(1, len(cs) + 1)) + "  match Never()\n"
     return "\n".join(out) + "\n" + main
 
@@ -49,7 +54,8 @@ def observe(st, n):
             if heads:
                 el = cfg.elements[heads[0].position]
                 nm = getattr(getattr(el, "spec", None), "name", "")
-                outcome.append("untouched" if nm in ("E", "Other") else "proceeded")
+                vn = getattr(getattr(el, "spec", None), "var_name", None)
+                outcome.append("untouched" if (nm in ("E", "Other") or (vn or "").startswith("_ref_") or nm in ("FlowStarted",)) else "proceeded")
             else:
                 outcome.append("proceeded")
         else:
@@ -90,8 +96,8 @@ def _worker(chunk):
 
 
 def run(ctx):
-    fam = [(2, 1, 0)] if ctx.quick else [(2, 1, 0)]
-    fam += [(3, 64, ctx.seed % 64)] if ctx.quick else [(3, 8, ctx.seed % 8), (4, 4096, ctx.seed % 4096)]
+    fam = [(2, 3, ctx.seed % 3)] if ctx.quick else [(2, 1, 0)]
+    fam += [(3, 512, ctx.seed % 512)] if ctx.quick else [(3, 64, ctx.seed % 64), (4, 65536, ctx.seed % 65536)]
     scripts = []
     states = trans = 0
     for (n, parts, part) in fam:
@@ -137,7 +143,7 @@ def run(ctx):
         if not verd[i]:
             cs = scripts[k]
             ctx.violation("resolution", "competitors %s, tie-break pick %d: outcome %s, started actions %s" % (
-                [{x: c[x] for x in ("k", "half", "loop", "act", "fits")} for c in cs], o["pick"], o["outcome"], o["starts"]),
+                [{x: c[x] for x in ("k", "half", "loop", "act", "fits", "wrap")} for c in cs], o["pick"], o["outcome"], o["starts"]),
                 {"cs": cs, "pick": o["pick"], "observed": {"outcome": o["outcome"], "starts": o["starts"]}, "source": res[k][2],
                  "sig": {"n": len(cs), "loops": sorted(set(c["loop"] for c in cs)), "same_action": len(set(c["act"] for c in cs)) < len(cs)}})
     nontrivial = sum(1 for cs in scripts if sum(1 for c in cs if c["fits"]) >= 2)
